@@ -75,10 +75,10 @@ def make_filter(st, before: M.Tbl):
     raise ValueError(st)
 
 
-def _lazy_dense(raw):
+def _lazy_dense(raw, enc_names=None, hdr_names=None):
     """LazyDense rows wired like ArffReader does (loader callable, one encoder per column, header map, missing flag)."""
-    encs = tuple(ENC[e] for e in M.LZ_ENC)
-    hdr = {h: i for i, h in enumerate(M.LZ_HDR)}
+    encs = tuple(ENC[e] for e in (enc_names or M.LZ_ENC))
+    hdr = {h: i for i, h in enumerate(hdr_names or M.LZ_HDR)}
     return [LazyDense((lambda r=r: r), encs, hdr, False) for r in raw]
 
 
@@ -103,15 +103,17 @@ class Plan:
             t = M.m_apply(t, st)
         self.final = t
 
-    def build(self):
-        """Fresh real row objects for the whole output table."""
+    def build(self, filters=None):
+        """Fresh real row objects for the whole output table (through fresh filter objects, or through the given ones)."""
         kind, raw = M.source_raw(self.src)
         if kind == 'arff': rows = ArffReader().filter(raw)
         elif kind == 'lazydense': rows = _lazy_dense(raw)
+        elif kind == 'lazydense-r': rows = _lazy_dense(raw, M.LZR_ENC, M.LZR_HDR)
         elif kind == 'lazysparse': rows = _lazy_sparse(raw)
         else: rows = raw
-        for st, before in zip(self.stages, self.before):
-            rows = make_filter(st, before).filter(rows)
+        if filters is None: filters = [make_filter(st, before) for st, before in zip(self.stages, self.before)]
+        for flt in filters:
+            rows = flt.filter(rows)
         return list(rows)
 
 
@@ -253,8 +255,9 @@ FAMILY = {'i': 'row[position]', 'h': 'row[header name]', 'k': 'row[key]', 'list'
           'other': 'neighbouring row', 'build': 'building the pipeline'}
 STAGE_CLASS = {'head': 'Head', 'headmap': 'Head', 'shead': 'Head', 'enc': 'Encode', 'drop': 'Drop', 'label': 'Label', 'cat': 'EncodeCat'}
 SRC_CLASS = {'dl': 'dense lists', 'dc': 'dense lists', 'sk': 'sparse dicts', 'si': 'sparse dicts', 'sc': 'sparse dicts',
-             'ad': 'lazy ARFF dense', 'as': 'lazy ARFF sparse', 'aq': 'lazy ARFF dense', 'lz': 'LazyDense rows', 'lzs': 'LazySparse rows'}
-SIMPLER_SRC = {'dc': ['dl'], 'aq': ['ad'], 'si': ['sk'], 'sc': ['sk'], 'as': ['sk'], 'lzs': ['sk', 'as'], 'lz': ['ad']}
+             'ad': 'lazy ARFF dense', 'as': 'lazy ARFF sparse', 'aq': 'lazy ARFF dense', 'lz': 'LazyDense rows', 'lzs': 'LazySparse rows',
+             'lzr': 'LazyDense rows', 'ae': 'lazy ARFF dense', 'aes': 'lazy ARFF sparse'}
+SIMPLER_SRC = {'dc': ['dl'], 'aq': ['ad'], 'si': ['sk'], 'sc': ['sk'], 'as': ['sk'], 'lzs': ['sk', 'as'], 'lz': ['ad'], 'lzr': ['lz'], 'ae': ['ad'], 'aes': ['as']}
 
 
 def chain_text(src, stages):
@@ -266,12 +269,12 @@ def chain_class(src, stages):
     return (' > '.join(STAGE_CLASS[s[0]] for s in stages) or 'no stage') + ' on ' + SRC_CLASS[src]
 
 
-def run_history(plan: Plan, r, hist):
-    """Execute one history on a fresh build.  -> list of (position, op, mode, got, want) for every failing access,
-    or [('build', ...)] when the pipeline itself fails."""
+def run_history(plan: Plan, r, hist, filters=None):
+    """Execute one history on a fresh build (or a build through the given, already used, filter objects).
+    -> list of (position, op, mode, got, want) for every failing access, or [(-1, ['build'], ...)] when the pipeline itself fails."""
     t = plan.final
     try:
-        rows = plan.build()
+        rows = plan.build(filters)
     except Exception as e:   # noqa
         return [(-1, ['build'], f'raises {type(e).__name__}', repr(e), f'{len(t.rows)} rows')], None
     if len(rows) != len(t.rows):
@@ -349,9 +352,29 @@ class C13(Check):
                 yield {'src': src, 'stages': stages, 'row': None}
             for r in range(len(t.rows)):
                 yield {'src': src, 'stages': stages, 'row': r}
+        # re-use: the same filter objects on table 1, a different table 2, table 1 again
+        maxst = 2 if tier == 'quick' else 3
+        for nst in range(1, maxst + 1):
+            for s1, s2 in M.reuse_pairs():
+                for stages in self._extend2(M.source_model(s1), M.source_model(s2), [], nst, wide=(nst <= 2)):
+                    yield {'reuse': [s1, s2], 'stages': stages}
+
+    def _extend2(self, t1, t2, stages, todo, wide):
+        """Stage lists valid (per the precondition table) on both tables; predicates bound to one table's cells are left out."""
+        if todo == 0:
+            yield stages
+            return
+        for st in M.stage_options(t1, wide):
+            if st[0] == 'drop' and st[2] is not None and st[2][0] == 'eqrow': continue
+            try:
+                n1 = M.m_apply(t1, st); n2 = M.m_apply(t2, st)
+            except Precond:
+                continue
+            yield from self._extend2(n1, n2, stages + [st], todo - 1, wide)
 
     # -------------------------------------------------------------- one case
     def run_case(self, case, acc):
+        if 'reuse' in case: return self.run_reuse(case, acc)
         src, stages, r = case['src'], case['stages'], case['row']
         plan = Plan(src, stages)
         t = plan.final
@@ -395,6 +418,67 @@ class C13(Check):
             acc.outcome((type(row).__name__, t.kind, t.n if t.kind == 'dense' else len(t.rows[r]), t.headers is not None, t.label is not None))
             acc.count('rows_' + type(row).__name__)
         acc.count('histories', len(hs))
+
+    # -------------------------------------------------------------- re-used filter objects
+    STEPS = [(0, 'first table'), (1, 'second table'), (0, 'first table again')]
+
+    @staticmethod
+    def _reuse_eval(srcs, stages, upto=3):
+        """Apply ONE set of filter objects to table 1, table 2, table 1.  -> (first failure, counts): the failure is
+        (step, row, op, mode, got, want) of the first access (every access of the full alphabet on every output row, one
+        after the other) whose answer differs from the eager model of ITS OWN table although fresh filter objects on that
+        table give the eager answer; None when there is none."""
+        plans = [Plan(srcs[0], stages), Plan(srcs[1], stages)]
+        filters = [make_filter(st, None) for st in stages]
+        nacc = 0
+        for step, (which, _) in enumerate(C13.STEPS[:upto]):
+            plan = plans[which]
+            t = plan.final
+            rows_n = list(range(len(t.rows))) or [None]
+            for r in rows_n:
+                hist = [o for o in ops_for(t, r) if o[0] != 'other'] if r is not None else []
+                # the filters are stateful candidates: every row's accesses use one more pass through the same objects
+                fails, _ = run_history(plan, r, hist, filters)
+                nacc += len(hist)
+                for p, op, mode, got, want in fails:
+                    if step == 0: break                         # fresh objects: the ordinary cases report this
+                    f2, _ = run_history(plan, r, [op] if p != -1 else [])
+                    if any(f[1] == op for f in f2): continue     # fresh objects fail the same access: not a re-use effect
+                    return (step, r, op, mode, got, want), nacc
+                if fails and fails[0][0] == -1: break
+        return None, nacc
+
+    def run_reuse(self, case, acc):
+        srcs, stages = case['reuse'], case['stages']
+        fail, nacc = self._reuse_eval(srcs, stages)
+        acc.states += 3; acc.transitions += nacc; acc.traces += 1
+        acc.count('reuse_cases')
+        acc.mark_nontrivial()
+        acc.outcome(('reuse', srcs[0], srcs[1], tuple(STAGE_CLASS[s[0]] for s in stages)))
+        if fail is None: return
+        step, r, op, mode, got, want = fail
+        # greedy minimisation: drop stages while some access still fails the same way at the same step
+        cur = list(stages)
+        changed = True
+        while changed and len(cur) > 1:
+            changed = False
+            for i in range(len(cur)):
+                trial = cur[:i] + cur[i + 1:]
+                try:
+                    f2, _ = self._reuse_eval(srcs, trial)
+                except Exception:   # noqa   (outside the precondition table of one of the tables)
+                    continue
+                if f2 and f2[0] == step and f2[3] == mode:
+                    cur = trial; fail = f2; changed = True; break
+        step, r, op, mode, got, want = fail
+        where = self.STEPS[step][1]
+        fam = FAMILY[op[0]]
+        key = (f're-used filter objects|{fam}: {mode} on the {where}|'
+               f'{" > ".join(STAGE_CLASS[s[0]] for s in cur)}: {SRC_CLASS[srcs[0]]} then {SRC_CLASS[srcs[1]]}')
+        what = (f'one set of filter objects [{" > ".join(M.stage_kind(s) for s in cur)}] applied to {M.SRC_KIND[srcs[0]]}, then {M.SRC_KIND[srcs[1]]}, '
+                f'then {M.SRC_KIND[srcs[0]]} again: on the {where}, output row {r}, the access {op} gave {got!r}; the eager table '
+                f'(and fresh filter objects) give {want!r}')
+        acc.violation(key, what, {'reuse': srcs, 'stages': cur}, order=(len(cur), 9, acc._cur[0] if acc._cur else 0))
 
     # -------------------------------------------------------------- classification
     def _report(self, acc, case, plan, r, hist, op, mode, got, want, hi, reported):
